@@ -136,6 +136,19 @@ CHECKS = {
         note="An absent parity file may be created empty by a refused sync; refusals for 'Insufficient parity space' under "
              "--test-parity-limit are legitimate and counted as trivial.",
         design="DESIGN.md section 4, C14"),
+    "C10": dict(
+        category="exploration",
+        technique="property-based testing (Hypothesis): round trip through test-rewrite judged by an independent decoder AND an independent encoder; synthesised boundary-value states",
+        engine="hypothesis-cli",
+        text="(1) States reached by random histories (pending/replaced/deleted blocks, bad / rehash / just-synced marks, holes, links, "
+             "dirs, odd names, all hash sizes, both formats): the independent re-encoding of the decoded state must equal the tool's "
+             "file byte for byte, test-rewrite must reproduce it byte for byte, all copies identical, list agrees with the decoded state "
+             "whichever copy is read. (2) States synthesised by the independent encoder with values at varint boundaries (positions, "
+             "runs, sizes to 2^63-1, mtimes to 2^64-1, nsec invalid/0/max, inode 2^64-1, 4000-byte names): decode(rewrite(x)) == x and "
+             "rewrite idempotent.",
+        note="Synthesised models follow the normalisations the tool applies on save (format chosen by hash size/splits, 8 s time "
+             "granularity, no info/deleted blocks at positions without files, disks recording nothing are unmapped).",
+        design="DESIGN.md section 4, C10"),
 }
 
 NOT_YET = "check not built yet at this commit (planned in DESIGN.md section 4); not claimed until it runs"
